@@ -234,14 +234,26 @@ _ADD_LEVEL6 = {
 }
 for _k, _v in _ADD_LEVEL6.items():
     LEVEL[_k] = LEVEL[_k] + _v
+_ADD_LEVEL6B = {
+    "C01": " Added: fielded Every shortcuts keep the field; replace() activity tables of the binary matchers.",
+    "C03": " Added: a reader is re-used for a segment only under a comparison of the segments' deleted documents.",
+    "C08": " Added: the merge path copies raw column values.",
+    "C11": " Added: replace() of a binary matcher with an exhausted side keeps exactly what the operator still matches.",
+    "C18": " Added: a terms reader that sorts in terms_from() sorts in terms(); per-document data of the memory codec lives on the shared "
+           "segment (known finding: BufferedWriter loses column values).",
+    "C20": " Added: the ordered hash writers refuse an out-of-order key before recording anything of it.",
+}
+for _k, _v in _ADD_LEVEL6B.items():
+    LEVEL[_k] = LEVEL[_k] + _v
 for _k in list(LEVEL):
     LEVEL[_k] = LEVEL[_k] + (" Generic families over the property's anchor files: G1 no argument bound to the slot of another, same-named "
                              "parameter of the resolved callee; G2 no parameter dropped on the way to the callee that takes it; G3 no attribute "
                              "name read that nothing in the package or the standard library defines; G4 no constructor parameter replaced by a "
-                             "constant under its own name; G5 every attribute a concrete class reads through self is bound in its hierarchy.")
+                             "constant under its own name; G5 every attribute a concrete class reads through self is bound in its hierarchy; G6 a numeric parameter is not replaced "
+                             "by a non-zero fallback through `or`; G7 every global name a function reads is bound by its module.")
 for _k in list(NOTE):
     NOTE[_k] = NOTE[_k] + (" All rules are invariant under the behaviour-preserving whole-tree transformations of tools/robust.py "
-                           "and silent on the 318 confirmed refactorings under benign/ (thorough tier). Independent seeding rounds: an unseen "
+                           "and silent on the 313 confirmed refactorings under benign/ (thorough tier). Independent seeding rounds: an unseen "
                            "regression was caught in 19/40, 20/60, 23/60, 25/60, 21/60 and 21/60 cases before the rules were strengthened; an unseen refactoring "
                            "raised a false alarm in 27/80, 27/57, 15/60, 15/60 and 16/60 cases before the machinery was corrected (DESIGN.md C2, C8, C12, C13, C14). "
                            "The transformations are now 24.")
